@@ -211,6 +211,40 @@ func gen(r *hx.Rand, tier string) []json.RawMessage {
 		in.Stack.MMUCache, in.Stack.GMMU = sh.mc, sh.gm
 		out = append(out, hx.J(in))
 	}
+	// directed: three (and more) lookups of one page coalescing on an outstanding miss, the page
+	// remapped and invalidated, three more coalesced misses; slow walker so that the miss stays open
+	for i := 0; i < 3; i++ {
+		rr := r.Fork()
+		k := uint64([]int{12, 13, 16}[i])
+		ps := uint64(1) << k
+		in := &stackIn{K: k, MMUCache: i == 1, GMMU: i == 2, Latency: 12 + rr.Intn(10), Inflight: 2, Buf: 4, MemDelay: []int{3}}
+		for j := 0; j <= i; j++ {
+			in.TLBs = append(in.TLBs, tlbCfg{Sets: 1, Ways: 4, MSHR: 2, Latency: 1 + rr.Intn(2), Width: 2})
+		}
+		frame := uint64(32)
+		for _, p := range []uint32{1, 12} {
+			for g := uint64(0); g < 2; g++ {
+				frame += 2
+				in.Ops = append(in.Ops, stackOp{K: "map", PID: p, Page: g, PAddr: frame * ps})
+			}
+		}
+		burst := func() {
+			for _, p := range []uint32{1, 12} {
+				for j := 0; j < 3+rr.Intn(3); j++ {
+					in.Ops = append(in.Ops, stackOp{K: "acc", PID: p, VAddr: ps + uint64(4*j), Write: j == 1})
+				}
+			}
+		}
+		burst()
+		in.Ops = append(in.Ops, stackOp{K: "bar"})
+		for _, p := range []uint32{1, 12} {
+			frame += 3
+			in.Ops = append(in.Ops, stackOp{K: "map", PID: p, Page: 1, PAddr: frame * ps})
+		}
+		in.Ops = append(in.Ops, stackOp{K: "inv", PID: 0, Pages: []uint64{1}})
+		burst()
+		out = append(out, hx.J(input{Stack: in}))
+	}
 	// directed: prefix-related PIDs with alias-prone pages, everything resident (one big set)
 	for _, pool := range pidPools[1:] {
 		out = append(out, genStackWith(r.Fork(), 3, pool, true))
@@ -256,7 +290,7 @@ func init() {
 			"LowModule), page sizes 2^12..2^21, processes drawn from PID pools over 1..200 incl. decimal-prefix pairs (1/12, 2/25, 12/123, 1/11/111) with the page indices whose hex " +
 			"spelling continues the longer PID (alias-prone keys), random frames; 1-4 phases of {quiesce + remap + invalidate exactly those pages / all of the " +
 			"process / everything, remap under traffic without invalidation, quiesce + invalidate unchanged pages (own PID or wildcard), a page cached by every process remapped for all and " +
-			"invalidated once with the PID-0 wildcard + address filter} between bursts of reads/writes; directed stacks per prefix pool with everything resident in one 16+-way set; port buffers 1-5, " +
+			"invalidated once with the PID-0 wildcard + address filter} between bursts of reads/writes; directed stacks per prefix pool with everything resident in one 16+-way set; directed stacks with a slow walker where 3-5 lookups of one page coalesce on an outstanding miss, the page is remapped + invalidated, and 3-5 more coalesce; port buffers 1-5, " +
 			"memory delays 1-30. The MMU-cache-below-TLB and GMMU-remote shapes are always included. Non-trivial: stack with >=4 accesses, >=4 translation " +
 			"responses, >=2 page-table writes; AT probe with an in-page offset; TLB probe where the filter drops some but not all pages.",
 		Gen: gen, Run: run, Shrink: shrink,
